@@ -176,7 +176,13 @@ class C13(Check):
         scen = case['scen']
         conts = []
         for i in range(case['cont']):
-            conts.append(subprocess.Popen([PY, '-m', 'vf.props.flock_child', path, d, '1', '0', str(1000 + i * 4), '0', 'forever'],
+            # with two contenders: one only ever blocks in the kernel (so it is inside flock() when the holder dies, with
+            # line-level sleeps injected around its bookkeeping), the other polls without blocking as fast as it can
+            if case['cont'] == 2:
+                extra = ['acq,with', '0.3'] if i == 0 else ['nb,nb,timed', '0.0']
+            else:
+                extra = ['with,acq,nb,timed,ctx', '0.08']
+            conts.append(subprocess.Popen([PY, '-m', 'vf.props.flock_child', path, d, '1', '0', str(1000 + i * 4), '1', 'forever'] + extra,
                                           env=_env(), cwd=VERIF, stdout=subprocess.PIPE, stderr=subprocess.PIPE))
 
         def progress():
